@@ -213,7 +213,7 @@ pub fn run(id: &str, cfg: &RunCfg) -> PropResult {
         if id == "C02" {
             // schedule part: real threads (each run brings 2-8 of its own)
             let nc = if cfg.thorough { 20_000 } else { 400 };
-            r.merge(run_parallel(nc, 4, |i| super::c02conc::concurrent_case(cfg.seed, i)));
+            r.merge(crate::report::run_parallel_tagged('c', nc, 4, |i| super::c02conc::concurrent_case(cfg.seed, i)));
         }
         r
     };
